@@ -68,7 +68,10 @@ def status(f):
     e = f.exception()
     if e is not None:
         return ['exn', coqio.canon_exception(e)]
-    return ['val', f.result()]
+    r = f.result()
+    if hasattr(r, 'add_done_callback'):
+        return ['val', '<a future leaked through the adapter>']
+    return ['val', r]
 
 
 def finish(f, term):
